@@ -6,7 +6,10 @@ RULE = ("random value curves of 1-40 (thorough 1-60) points over few levels (ris
         "Max/Mean generators, TearSheetAssetGenerator (init + update_from_balance), TearSheetGenerator (update_from_position with the PnL deltas of the "
         "curve); `gen` (generate on a clone) after 0/10/30 % of the points and at the end of 80 % of the cases, `gen!` (mutating generate) occasionally. "
         "Thorough additionally enumerates every curve of length 1-5 over the levels {1,2,3,4} (1364 curves) through the bare generator and the asset "
-        "tear sheet. A case is distinct by the SHA-1 of its op lines and non-trivial when the implementation's observation block changes at least once")
+        "tear sheet. A case is distinct by the SHA-1 of its op lines and non-trivial when the implementation's observation block changes at least once. "
+        "Input-domain family d<k> (N/10 further cases, separately seeded): long curves (100-400 points, thorough up to 1 500); asset balances whose `free` differs from `total` "
+        "(half, 0, total+1, -total; 4th token of `asset` / `pt`); positions whose time_enter differs from time_exit (4th token of `pos`); extreme-but-exact magnitudes (unit 1e-8 / 1e-6 / "
+        "1e9 / 1e10, a 1e-8 or 0 trough under a 1e10 peak); `gen` / `gen!` on an empty history; timestamps before the epoch (negative, also decreasing) and around 1.7e12 ms")
 ASSUMPTIONS = [
     "positive running maxima (first value > 0): the spec driver is silent on other curves; the refinement theorems themselves hold for every curve",
     "Decimal arithmetic is exact rational arithmetic: depths ((peak-v)/peak) and mean depths are compared to 1e-18; overflow/rounding of rust_decimal not modelled",
